@@ -370,6 +370,7 @@ fn trees(seed: u64, n: u64) {
     let w = World::new();
     let mut out = String::new();
     near_limit(&w, &mut out);
+    limit_cases(&w, &mut out);
     translated_trees(&w, seed, n / 6, &mut out);
     for s in CORPUS {
         if let Some(m) = corpus_ms::<Segwitv0>(&w, false, s) {
@@ -1023,6 +1024,7 @@ fn descs(seed: u64, n: u64) {
         }
         _ => println!("X corpus-rejected tr ladder"),
     }
+    wide_descs(&w, &mut rng, &mut id);
     translated_descs(&w, seed, n / 8, &mut rng, &mut id);
     for c in 0..n {
         let cseed = seed.wrapping_mul(1_000_003).wrapping_add(c);
@@ -1041,7 +1043,198 @@ fn descs(seed: u64, n: u64) {
     }
 }
 
+// ------------------------------------------------------------------ directed wide / near-limit scripts
+// The world has eight keys; wide fragments repeat keys 1..4, which every parse used here permits
+// (`from_str_insane`; the validation verdict below is asked with `allow_duplicate_keys`).
+
+fn wide_multi_a(k: usize, n: usize) -> String {
+    let mut s = format!("multi_a({}", k);
+    for i in 0..n {
+        s.push_str(&format!(",K{}", 1 + i % 4));
+    }
+    s.push(')');
+    s
+}
+
+/// shape 0: multi_a(k, n keys)                       n witness elements, grows by 1
+/// shape 1: and_v(v:pk(K0), multi_a(k, n keys))      n + 1 elements, grows by 1
+/// shape 2: and_v(v:pkh(K0), multi_a(k, n keys))     n + 2 elements, grows by 2
+fn wide_leaf(shape: usize, k: usize, n: usize) -> String {
+    match shape {
+        0 => wide_multi_a(k, n),
+        1 => format!("and_v(v:pk(K0),{})", wide_multi_a(k, n)),
+        _ => format!("and_v(v:pkh(K0),{})", wide_multi_a(k, n)),
+    }
+}
+
+/// and_v(v:pk(K1),and_v(v:pk(K2),... pk(Kx))) with n keys: n witness elements (Segwitv0: 100 items)
+fn pk_chain(n: usize) -> String {
+    let mut s = format!("pk(K{})", 1 + (n - 1) % 4);
+    for i in (0..n - 1).rev() {
+        s = format!("and_v(v:pk(K{}),{})", 1 + i % 4, s);
+    }
+    s
+}
+
+fn verdict_class(e: &miniscript::ValidationError) -> String {
+    use miniscript::ValidationError as V;
+    match e {
+        V::MaxExecStackSizeExceeded { .. } => "stack".into(),
+        V::MaxWitnessItemsExceeded { .. } => "witems".into(),
+        V::MaxOpCountExceeded { .. } => "ops".into(),
+        V::MaxScriptSizeExceeded { .. } => "size".into(),
+        other => format!("other:{:?}", other).split_whitespace().collect::<Vec<_>>().join("_"),
+    }
+}
+
+/// the library's two limit verdicts on one script: `validate_non_top_level` under the context's SANE
+/// parameters (duplicate keys allowed: the world is small), and `within_resource_limits`
+fn sane_verdict<Ctx: ScriptContext>(m: &Miniscript<Key, Ctx>) -> (String, String) {
+    let mut params: miniscript::ValidationParams = Ctx::SANE;
+    params.allow_duplicate_keys = true;
+    let v = match catch_unwind(AssertUnwindSafe(|| m.validate_non_top_level(&params))) {
+        Ok(Ok(())) => "ok".to_string(),
+        Ok(Err(e)) => verdict_class(&e),
+        Err(_) => "PANIC".to_string(),
+    };
+    let wr = match catch_unwind(AssertUnwindSafe(|| m.within_resource_limits())) {
+        Ok(b) => (b as u8).to_string(),
+        Err(_) => "PANIC".to_string(),
+    };
+    (v, wr)
+}
+
+fn verdict_line<Ctx: ScriptContext>(w: &World, m: &Miniscript<Key, Ctx>, origin: &str, out: &mut String) {
+    let (v, wr) = sane_verdict(m);
+    writeln!(out, "V {} {} | {} | verdict={} within={}", ctx_name::<Ctx>(), origin, dump_str(w, &m.node), v, wr).unwrap();
+}
+
+/// (shape, k, n) of the tapscript leaves around the 1000-element stack limit
+const TAP_LIMIT_SHAPES: &[(usize, usize, usize)] = &[
+    (0, 1, 997), (0, 1, 998), (0, 1, 999), (0, 2, 999),
+    (1, 1, 997), (1, 1, 998), (1, 1, 999), (1, 2, 999),
+    (2, 1, 995), (2, 1, 996), (2, 1, 997),
+];
+
+fn limit_cases(w: &World, out: &mut String) {
+    for &(shape, k, n) in TAP_LIMIT_SHAPES {
+        let s = wide_leaf(shape, k, n);
+        match corpus_ms::<Tap>(w, true, &s) {
+            Some(m) => {
+                tree_line(w, &m, "limit", out);
+                verdict_line(w, &m, "limit", out);
+            }
+            None => writeln!(out, "X limit-rejected tap shape={} k={} n={}", shape, k, n).unwrap(),
+        }
+    }
+    // leaf satisfactions of 249..253 elements (the item count of a script-path witness crosses 252/253)
+    for n in 248..=253usize {
+        for shape in 0..2usize {
+            if let Some(m) = corpus_ms::<Tap>(w, true, &wide_leaf(shape, 1, n - shape)) {
+                tree_line(w, &m, "wide", out);
+            }
+        }
+    }
+    // Segwitv0: 100 witness items (the witness script is one of them)
+    for n in 97..=101usize {
+        match corpus_ms::<Segwitv0>(w, false, &pk_chain(n)) {
+            Some(m) => {
+                tree_line(w, &m, "limit", out);
+                verdict_line(w, &m, "limit", out);
+            }
+            None => writeln!(out, "X limit-rejected segwitv0 pk_chain n={}", n).unwrap(),
+        }
+    }
+}
+
+/// tr(K5, leaves...) over directed leaf strings (one leaf, or a right-leaning tree)
+fn wide_tr_case(w: &World, specs: &[String], keys: Vec<usize>) -> Option<Case> {
+    use miniscript::descriptor::TapTree;
+    let mut leaves = Vec::new();
+    let mut dumps = Vec::new();
+    let mut exts = Vec::new();
+    for s in specs.iter() {
+        let m = corpus_ms::<Tap>(w, true, s)?;
+        dumps.push((dump_str(w, &m.node), m.encode().into_bytes()));
+        exts.push(ext_str(&m.ext));
+        leaves.push(m);
+    }
+    let mut t = TapTree::leaf(leaves.pop()?);
+    while let Some(l) = leaves.pop() {
+        t = TapTree::combine(TapTree::leaf(l), t).ok()?;
+    }
+    let desc = Descriptor::new_tr(w.key(5, true), Some(t)).ok()?;
+    Some(Case { desc, kind: "tr", ms_dump: dumps, exts, keys, abs: vec![], rel: vec![], internal: Some(5) })
+}
+
+/// descriptors whose script-path witness has 251..255 items
+fn wide_descs(w: &World, rng: &mut Rng, id: &mut u64) {
+    let mut specs: Vec<(Vec<String>, Vec<usize>)> = Vec::new();
+    for n in 249..=253usize {
+        specs.push((vec![wide_leaf(0, 1, n)], vec![1]));
+    }
+    for n in 250..=252usize {
+        specs.push((vec!["pk(K2)".to_string(), wide_leaf(1, 1, n - 1)], vec![0, 1]));
+    }
+    for (leaves, keys) in specs {
+        match catch_unwind(AssertUnwindSafe(|| wide_tr_case(w, &leaves, keys))) {
+            Ok(Some(case)) => {
+                for env in lock_envs(&case, rng) {
+                    *id += 1;
+                    let mut s = String::new();
+                    desc_block(w, &case, &env, *id, false, rng, &mut s);
+                    print!("{}", s);
+                }
+            }
+            _ => println!("X corpus-rejected tr wide {}", leaves.last().map(|l| l.len()).unwrap_or(0)),
+        }
+    }
+}
+
+/// `ext limits`: sat-engine protocol blocks (read by ocaml/driver_ext) for tr descriptors over the
+/// near-limit tapscript leaves. `sane=1` marks a leaf that `validate_non_top_level` accepts under
+/// Tap::SANE: its produced satisfactions must run within 1000 stack elements.
+pub fn run_limits() {
+    let w = World::new();
+    print!("{}", crate::sat::world_header(&w));
+    let mut rng = Rng(0x5151);
+    let mut id = 0u64;
+    for &(shape, k, n) in TAP_LIMIT_SHAPES {
+        let s = wide_leaf(shape, k, n);
+        let m = match corpus_ms::<Tap>(&w, true, &s) {
+            Some(m) => m,
+            None => {
+                println!("X limit-rejected tap shape={} k={} n={}", shape, k, n);
+                continue;
+            }
+        };
+        let (v, _) = sane_verdict(&m);
+        let keys = if shape == 0 { vec![1, 2] } else { vec![0, 1, 2] };
+        let case = match catch_unwind(AssertUnwindSafe(|| wide_tr_case(&w, &[s.clone()], keys))) {
+            Ok(Some(c)) => c,
+            _ => {
+                println!("X limit-rejected tr shape={} k={} n={}", shape, k, n);
+                continue;
+            }
+        };
+        for env in lock_envs(&case, &mut rng) {
+            id += 1;
+            let mut o = String::new();
+            if catch_unwind(AssertUnwindSafe(|| crate::sat::emit_case(&w, &case, &env, id, v == "ok", &mut rng, &mut o))).is_err() {
+                println!("END");
+                println!("PANIC emit_case limit shape={} k={} n={}", shape, k, n);
+                continue;
+            }
+            print!("{}", o);
+        }
+    }
+    println!("DONE limits");
+}
+
 pub fn run(args: &[String]) {
+    if args.first().map(|s| s.as_str()) == Some("limits") {
+        return run_limits();
+    }
     let seed: u64 = args.first().and_then(|s| s.parse().ok()).unwrap_or(1);
     let n_rules: u64 = args.get(1).and_then(|s| s.parse().ok()).unwrap_or(400);
     let n_trees: u64 = args.get(2).and_then(|s| s.parse().ok()).unwrap_or(400);
